@@ -328,10 +328,10 @@ func extractOpTables(t *Tree, pkg string) *opTables {
 					var ab string
 					if v2 {
 						cfg := &specCfg{Call: stdErrCall}
-						outs, ab = cfg.run(f, []sval{{tup: []sval{symv("L"), dt(l)}}, {tup: []sval{symv("R"), dt(r)}}, dt(op)})
+						outs, ab = cfg.run(f, roleArgs(f, []sval{{tup: []sval{symv("L"), dt(l)}}, {tup: []sval{symv("R"), dt(r)}}, dt(op)}))
 					} else {
 						cfg := &specCfg{Call: stdErrCall}
-						outs, ab = cfg.run(f, []sval{symv("L"), symv("R"), dt(l), dt(r), dt(op)})
+						outs, ab = cfg.run(f, roleArgs(f, []sval{symv("L"), symv("R"), dt(l), dt(r), dt(op)}))
 					}
 					note(ab, key)
 					ot.set(key, v1render(outs))
@@ -371,7 +371,7 @@ func extractOpTables(t *Tree, pkg string) *opTables {
 					var outs []specOutcome
 					var ab string
 					if v2 {
-						outs, ab = cfg.run(f, []sval{symv("ctx"), {tup: []sval{symv("L"), dt(l)}}, {tup: []sval{symv("R"), dt(r)}}, dt(op), symv("pos")})
+						outs, ab = cfg.run(f, roleArgs(f, []sval{symv("ctx"), {tup: []sval{symv("L"), dt(l)}}, {tup: []sval{symv("R"), dt(r)}}, dt(op), symv("pos")}))
 						set := map[string]bool{}
 						for _, o := range outs {
 							if len(o.Vals) == 2 {
@@ -396,7 +396,7 @@ func extractOpTables(t *Tree, pkg string) *opTables {
 						ot.set(key, joinOutcomes(set))
 					} else {
 						cfg.Paths = map[string]sval{"l.DType": dt(l), "r.DType": dt(r), "l.Value": symv("L"), "r.Value": symv("R")}
-						outs, ab = cfg.run(f, []sval{symv("ctx"), symv("l"), symv("r"), dt(op), symv("pos")})
+						outs, ab = cfg.run(f, roleArgs(f, []sval{symv("ctx"), symv("l"), symv("r"), dt(op), symv("pos")}))
 						note(ab, key)
 						ot.set(key, v1render(outs))
 					}
